@@ -5,7 +5,7 @@ import AvoVerif.Props.C13Tables
 #print axioms Avo.Data.data_image
 #print axioms Avo.Data.int_text_roundtrip
 #print axioms Avo.Data.string_text_roundtrip_partial
-#print axioms Avo.Data.string_text_roundtrip_ascii_mode
+#print axioms Avo.Data.string_text_roundtrip
 #print axioms Avo.Data.string_text_fails_at_middle_dot
 #print axioms Avo.Data.data_lines
 #print axioms Avo.Data.data_end_to_end
